@@ -6,6 +6,8 @@ RULES = ['HOLD-BEFORE-ESCAPE', 'REL-AFTER-AWAIT', 'EMIT-REL-TIMING', 'NO-REL-ON-
 FLOORS = {'HOLD-BEFORE-ESCAPE': 14, 'REL-AFTER-AWAIT': 12, 'NO-REL-ON-FAIL': 15, 'EMIT-REL-TIMING': 1,
           'REL-WHILE-IN-FLIGHT': 1}
 
+META = {'level': "Static typestate analysis of the reference-count protocol on every enumerated path (loops unrolled, helpers spliced, exceptional edges) of every method of every node class. Decides structural necessary conditions of 'never early, never for a failed element': retain-before-escape, release-after-await, no release on failure edges, ownership of in-flight slots. It does not decide when the loop runs a callback nor Dask cluster behaviour; a behavioural proof over all schedules is out of reach of static analysis.", 'note': 'Trusted: CPython ast; Python evaluation order and tornado/asyncio suspension semantics as encoded in sa/paths.py; the reasoned exception tables printed in the evidence. Two genuine defects are listed in known_findings.json (Stream._emit release timing; latest in-flight release).', 'technique': 'static analysis: bounded path enumeration + ownership/typestate rules (HOLD-BEFORE-ESCAPE, REL-AFTER-AWAIT, NO-REL-ON-FAIL, REL-WHILE-IN-FLIGHT, EMIT-REL-TIMING)'}
+
 
 def run(ctx, R):
     R.explanation = (
